@@ -133,7 +133,7 @@ func drawStates(r *core.Run, n int, liveBias bool) []kmspb.CryptoKeyVersion_Cryp
 func c20Plans(tier string) []core.Trace {
 	head := func(fault int) core.Trace {
 		return core.Trace{{L: "paging", N: 5, V: 0}, {L: "gen-delay-s", N: 121, V: 0}, {L: "gen-outcome", N: 6, V: 0}, {L: "deadline-s", N: 400, V: 0},
-			{L: "no-deadline?", N: 100, V: 0}, {L: "op", N: 6, V: 0}, {L: "signer-opts", N: 7, V: 0}, {L: "sign-fault", N: 8, V: fault}, {L: "rpc-fault?", N: 100, V: 0}}
+			{L: "no-deadline?", N: 100, V: 0}, {L: "op", N: 6, V: 0}, {L: "signer-opts", N: 7, V: 0}, {L: "sign-fault", N: 10, V: fault}, {L: "rpc-fault?", N: 100, V: 0}}
 	}
 	var out []core.Trace
 	for b := 0; b < 256; b++ {
@@ -147,7 +147,7 @@ func c20Plans(tier string) []core.Trace {
 	for bit := 0; bit < 64; bit++ { // signature_crc32c travels as an int64: all 64 bits
 		out = append(out, append(head(2), core.Choice{L: "crc-bit", N: 64, V: bit}))
 	}
-	for f := 3; f <= 5; f++ {
+	for f := 3; f <= 7; f++ { // flags, digest in transit, checksum field absent (with / without a flipped signature bit)
 		out = append(out, head(f))
 	}
 	return out
@@ -249,8 +249,8 @@ func c20(r *core.Run) {
 		default:
 			opts, pssSha256 = &rsa.PSSOptions{SaltLength: rsa.PSSSaltLengthAuto, Hash: crypto.SHA256}, true
 		}
-		k.SignFault = r.Intn(8, "sign-fault")
-		if k.SignFault > 5 {
+		k.SignFault = r.Intn(10, "sign-fault")
+		if k.SignFault > 7 {
 			k.SignFault = 0
 		}
 		rpcFault()
@@ -309,7 +309,7 @@ func c20(r *core.Run) {
 		_, nv := k.Population(ring)
 		r.Eval(r.Fingerprint(), fired() || nv > 100)
 		r.Eventf("bootstrap-key %s -> ok=%v", id, err == nil)
-		if kk := k.key(m.FullKeyName(id)); kk != nil && usable && len(kk.versions) > nvBefore && !fired() {
+		if kk := k.key(m.FullKeyName(id)); kk != nil && usable && len(kk.versions) > nvBefore {
 			r.Fail("bootstrap-picked-non-enabled", "created-instead-of-selecting", "bootstrap created key version #%d although the key already had an enabled or pending version among its %d (paging policy %d): the listing was not accounted for", len(kk.versions), nvBefore, k.Paging)
 		}
 		if err == nil {
